@@ -177,7 +177,8 @@ def expr_text(n, depth=0):
         p = (n.get("path") or "").rsplit("::", 1)[-1]
         fs = {f["name"]: expr_text(f["e"], depth + 1) for f in n.get("fields") or []}
         if p in ("Range",):
-            return "%s..%s" % (fs.get("start", ""), fs.get("end", ""))
+            st = fs.get("start", "")
+            return "%s..%s" % ("" if st == "0" else st, fs.get("end", ""))
         if p == "RangeFrom":
             return "%s.." % fs.get("start", "")
         if p == "RangeTo":
